@@ -73,8 +73,9 @@ struct Item
 	std::string s;                 // string bytes (no NUL inside)
 	int in_force;                  // order in force when this item is written (model)
 	int src;                       // arrays: -1 = a new Array object; j >= 0 = the Array object made for item j is written again
+	int pieces;                    // K_STR: 0 = one String; n > 0 = written as an Array<String> of n strings whose concatenation is s
 	size_t off, len;               // position of its bytes in the reference stream
-	Item() : kind(0), elem(0), ord(0), bits(0), in_force(0), src(-1), off(0), len(0) {}
+	Item() : kind(0), elem(0), ord(0), bits(0), in_force(0), src(-1), pieces(0), off(0), len(0) {}
 };
 
 struct Seq
@@ -266,6 +267,8 @@ static void gen_seq(vf::Ctx& c, Seq& q, int stratum)
 			it.kind = K_STR + (int)r.below(3); it.s = gen_text(r);
 			// a String carries its length: binary content with zero bytes is a string value too (not for the const char* form)
 			if (it.kind != K_CSTR && it.s.size() && r.chance(0.2)) { int k = r.range(1, 3); for (int j = 0; j < k; j++) it.s[r.below((uint32_t)it.s.size())] = 0; }
+			// an array of strings is an array of "these" too: its bytes are the strings' bytes one after the other
+			if (it.kind == K_STR && r.chance(0.2)) it.pieces = r.range(1, 4);
 		}
 		else { it.kind = K_END; it.ord = (int)r.below(NORD); }
 		if (it.kind == K_END) cur = it.ord;
@@ -303,6 +306,7 @@ static std::string describe(const Seq& q)
 		if (it.kind == K_END) d += std::string("setEndian(") + ONAME[it.ord] + ")";
 		else if (it.kind == K_ARR && it.src >= 0) d += vf::fmt("again#%d:Array<%s>[%d]", it.src, KNAME[it.elem], (int)it.arr.size());
 		else if (it.kind == K_ARR) d += vf::fmt("#%d:Array<%s>[%d]", (int)i, KNAME[it.elem], (int)it.arr.size());
+		else if (it.kind == K_STR && it.pieces) d += vf::fmt("Array<String>[%d](%d bytes)", it.pieces, (int)it.s.size());
 		else if (it.kind >= K_STR) d += vf::fmt("%s[%d]", KNAME[it.kind], (int)it.s.size());
 		else d += vf::fmt("%s=0x%llx", KNAME[it.kind], (unsigned long long)it.bits);
 	}
@@ -324,6 +328,7 @@ static bool account(vf::Ctx& c, const Seq& q, uint64_t& hash)
 	for (size_t i = 0; i < q.items.size(); i++) {
 		const Item& it = q.items[i];
 		kinds[it.kind]++;
+		if (it.kind == K_STR && it.pieces) c.count(swapped(it.in_force) ? "array_of.String.other-endian-order" : "array_of.String.native-order");
 		sig += (char)it.kind;
 		if (it.kind == K_END) { sig += (char)(64 + it.ord); continue; }
 		under[it.in_force]++;
@@ -476,7 +481,23 @@ static void write_all(W& w, const Seq& q, SrcLog& sl)
 #define X(K, T) case K: put_scalar<W, T>(w, it, i, sl); break;
 			C16_SCALARS(X)
 #undef X
-		case K_STR: { String s(it.s.c_str(), (int)it.s.size()); w << s; string_unchanged(s, it, i, sl); break; }
+		case K_STR:
+			if (it.pieces > 0) {
+				Array<String> a;
+				size_t n = it.s.size(), per = n / (size_t)it.pieces;
+				for (int k = 0; k < it.pieces; k++) {
+					size_t from = (size_t)k * per, to = k + 1 == it.pieces ? n : from + per;
+					a << String(it.s.c_str() + from, (int)(to - from));
+				}
+				w << a;
+				std::string back;
+				for (int k = 0; k < a.length(); k++) back.append(*a[k], (size_t)a[k].length());
+				sl.strings++;
+				if (a.length() != it.pieces || back != it.s)
+					sl.mm.set(vf::fmt("write.Array<String>.%s.source-modified", ONAME[it.in_force]), vf::fmt("item %d: the Array<String> given to operator<< differs from the original afterwards", (int)i));
+				break;
+			}
+			{ String s(it.s.c_str(), (int)it.s.size()); w << s; string_unchanged(s, it, i, sl); break; }
 		case K_CSTR: {
 			std::string copy(it.s);
 			const char* p = copy.c_str();
@@ -827,7 +848,15 @@ static void run_buffer(vf::Ctx& c, const Seq& q)
 		int n = c.rng.range(20, 300);
 		for (int i = 0; i < n; i++) {
 			if (m.size() && c.rng.chance(0.4)) { size_t k = c.rng.below((uint32_t)m.size()); char v = m[k]; if (c.rng.chance(0.5)) b << b[(int)k]; else b << (char&)b[(int)k]; m += v; }
+			else if (m.size() && c.rng.chance(0.15)) {
+				// a run of the buffer's own bytes: write(own pointer, n) and << (the buffer as a ByteArray), also across a growth boundary
+				size_t k = c.rng.below((uint32_t)m.size()), len = 1 + c.rng.below((uint32_t)(m.size() - k));
+				std::string run = m.substr(k, len);
+				if (c.rng.chance(0.6)) { ByteArray& self = b; b.write(self.data() + k, (int)len); c.count("buffer.self_run_written_with_write(ptr,n)"); m += run; }
+				else { ByteArray& self = b; b << self; c.count("buffer.self_written_with_<<"); m += std::string(m); }
+			}
 			else { byte v = (byte)c.rng.below(256); b << v; m += (char)v; }
+			if (m.size() > 60000) break;
 		}
 		ByteArray& ba = b;
 		if (ba.length() != (int)m.size() || memcmp(ba.data(), m.data(), m.size()) != 0) c.fail("write.byte-of-own-buffer", vf::fmt("%d appends, a third of them bytes of the buffer itself: content differs from the model", n));
@@ -1064,7 +1093,21 @@ static void run_socket_frag(vf::Ctx& c, const Seq& q, bool nontrivial, uint64_t 
 	frag_plan(c.rng, q, style, plan);
 	c.count((std::string("frag.style.") + FRAG_TAG[style]).c_str());
 	// one case in 131 has a silent peer for 2.3 s in the middle of the stream: the reader waits, it does not give a value up
-	if (c.idx % 131 == 9 && plan.size() >= 2) { plan[c.rng.below((uint32_t)plan.size() - 1)].pause_us = 2300000; c.count("frag.long_silence_of_2.3s"); }
+	// In two thirds of them the silence starts exactly in front of a scalar (nothing of it has arrived yet: the reader sits in
+	// `socket >> x` with an empty receive queue for longer than the library's default 2 s waitInput() time-out), otherwise anywhere.
+	if (c.idx % 67 == 9 && plan.size() >= 2) {
+		std::vector<size_t> before_scalar;
+		{
+			std::vector<char> scalar_at(q.ref.size() + 1, 0);
+			for (size_t i = 0; i < q.items.size(); i++) if (q.items[i].kind < NSCALAR) scalar_at[q.items[i].off] = 1;
+			for (size_t i = 0; i + 1 < plan.size(); i++) if (scalar_at[plan[i].off + plan[i].len]) before_scalar.push_back(i);
+		}
+		if (!before_scalar.empty() && c.rng.below(3) != 0) {
+			plan[before_scalar[c.rng.below((uint32_t)before_scalar.size())]].pause_us = 2300000;
+			c.count("frag.long_silence_of_2.3s.in-front-of-a-scalar");
+		} else plan[c.rng.below((uint32_t)plan.size() - 1)].pause_us = 2300000;
+		c.count("frag.long_silence_of_2.3s");
+	}
 	int fd[2];
 	if (socketpair(AF_UNIX, SOCK_STREAM, 0, fd) != 0) { c.inconclusive("socketpair"); return; }
 	c.op(vf::fmt("reference bytes (%d) sent through the raw descriptor by a thread in %d pieces (%s) with pauses; Socket(fd) >> on the peer", (int)q.ref.size(),
